@@ -1041,9 +1041,12 @@ def givens_tail(chk, rng):
             if err > 1e-8:
                 chk.violation("givens:basis-change:%s" % kind, "NUMERIC TAIL: bogoliubov_transform(W) (%d modes, %s W): G^+ n_k G differs from the "
                               "rotated number operator by %.3g" % (n, kind, err), case)
-    from tangelo.molecule_library import mol_H2_sto3g, mol_H4_sto3g
+    mols = []
+    if not chk.quick:       # importing the molecule library runs pyscf for every library molecule (~30 s): thorough tier only
+        from tangelo.molecule_library import mol_H2_sto3g, mol_H4_sto3g
+        mols = [("H2", mol_H2_sto3g), ("H4", mol_H4_sto3g)]
     from tangelo.toolboxes.qubit_mappings.mapping_transform import fermion_to_qubit_mapping
-    for name, mol in [("H2", mol_H2_sto3g)] + ([] if chk.quick else [("H4", mol_H4_sto3g)]):
+    for name, mol in mols:
         case = {"fn": "givens_mol", "spec": {"molecule": name}}
         nq = mol.n_active_sos
         rots = get_orbital_rotations(mol)
